@@ -177,6 +177,14 @@ pub fn verif_dir() -> String {
 
 static LAST_PANIC: Mutex<String> = Mutex::new(String::new());
 
+/// Set by a check whose last case left threads stuck for good (e.g. a deadlock it reports):
+/// the worker process finishes its report and exits, the driver starts a fresh one.
+pub static WORKER_TAINTED: AtomicBool = AtomicBool::new(false);
+
+pub fn taint_worker() {
+    WORKER_TAINTED.store(true, Ordering::SeqCst);
+}
+
 pub fn last_panic() -> String {
     LAST_PANIC.lock().map(|g| g.clone()).unwrap_or_default()
 }
@@ -329,17 +337,33 @@ fn worker_loop(check: &dyn Check, tier: Tier, seed: u64) {
                             }
                         }
                     }
+                    if WORKER_TAINTED.load(Ordering::SeqCst) {
+                        break;
+                    }
                 }
+                let tainted = WORKER_TAINTED.load(Ordering::SeqCst);
                 let v = json!({"n": n, "evaluations": evals, "discards": discards, "hashes": hashes, "classes": classes,
-                               "samples": samples, "fails": fails, "errors": errors});
+                               "samples": samples, "fails": fails, "errors": errors, "next": start + n, "tainted": tainted});
                 let _ = writeln!(out, "R {}", v);
+                if tainted {
+                    // threads of the last case are stuck for good (deadlock): this process is not reused
+                    let _ = out.flush();
+                    unsafe { libc::_exit(0) }
+                }
             }
             "T" => {
                 let phase: usize = parts[1].parse().unwrap();
                 let tape = from_hex(parts.get(2).copied().unwrap_or(""));
                 let _ = writeln!(out, "S {} 0", phase);
                 let r = run_guarded(check, phase, &tape, true);
-                let _ = writeln!(out, "R {}", result_json(phase, 0, &tape, &r));
+                let mut v = result_json(phase, 0, &tape, &r);
+                let tainted = WORKER_TAINTED.load(Ordering::SeqCst);
+                v["tainted"] = json!(tainted);
+                let _ = writeln!(out, "R {}", v);
+                if tainted {
+                    let _ = out.flush();
+                    unsafe { libc::_exit(0) }
+                }
             }
             "Q" => break,
             _ => {}
@@ -506,12 +530,18 @@ impl<'a> OneShot<'a> {
         if self.worker.is_none() {
             self.worker = Some(Worker::spawn(self.id, self.tier, self.seed));
         }
-        let w = self.worker.as_mut().unwrap();
-        if !w.send(&format!("T {} {}\n", phase, to_hex(tape))) {
-            w.kill();
-            self.worker = None;
-            return OneResult::Crash("cannot send".to_string());
+        let cmd = format!("T {} {}\n", phase, to_hex(tape));
+        if !self.worker.as_mut().unwrap().send(&cmd) {
+            // the worker may have retired itself (tainted) - retry once on a fresh one
+            self.worker.as_mut().unwrap().kill();
+            self.worker = Some(Worker::spawn(self.id, self.tier, self.seed));
+            if !self.worker.as_mut().unwrap().send(&cmd) {
+                self.worker.as_mut().unwrap().kill();
+                self.worker = None;
+                return OneResult::Crash("cannot send".to_string());
+            }
         }
+        let w = self.worker.as_mut().unwrap();
         let deadline = Instant::now() + timeout;
         loop {
             let left = deadline.saturating_duration_since(Instant::now());
@@ -519,7 +549,13 @@ impl<'a> OneShot<'a> {
                 Reply::Line(l) => {
                     if let Some(rest) = l.strip_prefix("R ") {
                         match serde_json::from_str::<Value>(rest) {
-                            Ok(v) => return OneResult::Done(v),
+                            Ok(v) => {
+                                if v["tainted"].as_bool().unwrap_or(false) {
+                                    w.kill();
+                                    self.worker = None;
+                                }
+                                return OneResult::Done(v);
+                            }
                             Err(e) => return OneResult::Crash(format!("bad reply {}", e)),
                         }
                     }
@@ -761,6 +797,7 @@ pub fn driver_main(check: Arc<dyn Check>, cfg: RunConfig) -> i32 {
                     continue;
                 }
                 let mut last: Option<u64> = None;
+                let mut drop_worker = false;
                 let wd = Duration::from_millis(phases[pi].watchdog_ms);
                 loop {
                     match w.read_line(wd) {
@@ -772,6 +809,14 @@ pub fn driver_main(check: Arc<dyn Check>, cfg: RunConfig) -> i32 {
                             } else if let Some(rest) = l.strip_prefix("R ") {
                                 if let Ok(v) = serde_json::from_str::<Value>(rest) {
                                     agg.lock().unwrap().merge(&v);
+                                    // a tainted worker stops its batch early and exits
+                                    let next = v["next"].as_u64().unwrap_or(start + count);
+                                    if next < start + count {
+                                        queue.lock().unwrap().push((pi, next, start + count - next));
+                                    }
+                                    if v["tainted"].as_bool() == Some(true) {
+                                        drop_worker = true;
+                                    }
                                 }
                                 break;
                             }
@@ -800,6 +845,11 @@ pub fn driver_main(check: Arc<dyn Check>, cfg: RunConfig) -> i32 {
                             }
                             break;
                         }
+                    }
+                }
+                if drop_worker {
+                    if let Some(mut w) = worker.take() {
+                        w.kill();
                     }
                 }
             }
